@@ -34,4 +34,11 @@ theorem c14_write_failure_reported (total k : Nat) :
   unfold Reader.sendWriteFail
   constructor <;> intro h <;> simp [h]
 
+/-- non-vacuity of the `WholeP` hypothesis: DONE(MORE) DONE(FINAL) parses whole into its two packages -/
+example : WholeP Codec.ops none ([0xFD, 1, 0, 0, 0, 5, 0, 0, 0] ++ [0xFD, 0, 0, 0, 0, 7, 0, 0, 0])
+    [.done "done" ⟨1, 0, 5⟩, .done "done" ⟨0, 0, 7⟩] := by
+  refine .cons none 0xFD _ (lift Basic.Done.dec (.done "done")) (.done "done" ⟨1, 0, 5⟩) 8 _ rfl (by rfl) ?_
+  refine .cons _ 0xFD _ (lift Basic.Done.dec (.done "done")) (.done "done" ⟨0, 0, 7⟩) 8 _ rfl (by rfl) ?_
+  exact .nil _
+
 end Dblib.Props.C14
